@@ -1,21 +1,87 @@
 //! C14 — field arithmetic is exact modular arithmetic on every representation.
-//! Oracle: u128 arithmetic mod p (gen::field::refmod).
+//! Oracles: u128 arithmetic mod p (gen::field::refmod), BigUint modpow, and schoolbook
+//! polynomial arithmetic modulo X^D - W written here (struct XR).
 
+use num::{BigUint, Integer, One, Zero};
+use plonky2_field::batch_util::{batch_add_inplace, batch_multiply_inplace};
+use plonky2_field::extension::{Extendable, FieldExtension, Frobenius, OEF};
 use plonky2_field::goldilocks_field::GoldilocksField as F;
 use plonky2_field::ops::Square;
-use plonky2_field::types::{Field, Field64, PrimeField64};
+use plonky2_field::packable::Packable;
+use plonky2_field::packed::PackedField;
+use plonky2_field::types::{Field, Field64, PrimeField, PrimeField64};
+use proptest::collection::vec as pvec;
 use proptest::prelude::*;
 use serde::{Deserialize, Serialize};
 use serde_json::json;
 
-use crate::engine::{bx, Ctx, Stats};
-use crate::gen::field::{any_repr, canonical, class_of, is_boundary, refmod, P};
+use crate::engine::{bx, frac, Ctx, Stats};
+use crate::gen::field::{any_repr, class_of, is_boundary, refmod, EPS, P};
+
+const P128: u128 = P as u128;
+
+macro_rules! ck {
+    ($cond:expr, $($arg:tt)*) => {
+        if !($cond) {
+            return Err(format!($($arg)*));
+        }
+    };
+}
+
+// ------------------------------------------------------------------------------------------
+// Operand predicates for the rare branches (computed from operands only)
+// ------------------------------------------------------------------------------------------
+
+/// (borrow in `x_lo - x_hi_hi`, overflow in the final `t0 + t1`) of the 128-bit reduction.
+fn reduce128_preds(x: u128) -> (bool, bool) {
+    let x_lo = x as u64;
+    let x_hi = (x >> 64) as u64;
+    let hh = x_hi >> 32;
+    let hl = x_hi & EPS;
+    let (mut t0, borrow) = x_lo.overflowing_sub(hh);
+    if borrow {
+        t0 = t0.wrapping_sub(EPS);
+    }
+    let t1 = hl * EPS; // <= (2^32-1)^2, cannot overflow
+    (borrow, t0.checked_add(t1).is_none())
+}
+
+fn add_double_overflow(a: u64, b: u64) -> bool {
+    let (s1, o1) = a.overflowing_add(b);
+    o1 && s1.overflowing_add(EPS).1
+}
+
+fn sub_double_underflow(a: u64, b: u64) -> bool {
+    let (d1, u1) = a.overflowing_sub(b);
+    u1 && d1.overflowing_sub(EPS).1
+}
+
+fn label_reduce128(st: &mut Stats, tag: &str, x: u128) {
+    let (b, o) = reduce128_preds(x);
+    if b {
+        st.label(&format!("branch:reduce128_borrow[{}]", tag));
+    }
+    if o {
+        st.label(&format!("branch:reduce128_final_add_overflow[{}]", tag));
+    }
+    if b && o {
+        st.label(&format!("branch:reduce128_borrow_and_overflow[{}]", tag));
+    }
+}
+
+// ------------------------------------------------------------------------------------------
+// scalar_ops
+// ------------------------------------------------------------------------------------------
 
 #[derive(Clone, Debug, Serialize, Deserialize)]
 pub struct Triple {
     pub a: u64,
     pub b: u64,
     pub c: u64,
+}
+
+fn small() -> impl Strategy<Value = u64> {
+    prop_oneof![4 => 0u64..4, 1 => 0u64..70_000]
 }
 
 fn triple() -> BoxedStrategy<Triple> {
@@ -32,12 +98,41 @@ fn triple() -> BoxedStrategy<Triple> {
         b: a.wrapping_add(k).wrapping_sub(2), // a-b near 0 from both sides
         c,
     });
+    // both operands in the top 2^32 window: a+b >= 2^64+p about half of the time
     let both_big = (0u64..0x1_0000_0000, 0u64..0x1_0000_0000, any_repr()).prop_map(|(x, y, c)| Triple {
         a: u64::MAX - x,
         b: u64::MAX - y,
         c,
     });
-    bx(prop_oneof![4 => indep, 1 => corr_add, 1 => corr_sub, 1 => both_big])
+    // a tiny, b in the top window: b-a > p (double underflow of a-b) about half of the time
+    let small_minus_big = (0u64..0x1_0000_0000, 0u64..0x1_0000_0000, any_repr()).prop_map(|(x, y, c)| Triple {
+        a: x,
+        b: u64::MAX - y,
+        c,
+    });
+    // exact edges of the double overflow / underflow conditions
+    let edge_add = (0u64..0xFFFF_FFFE, 0u64..5, any_repr()).prop_map(|(x, k, c)| {
+        // a = 2^64-1-x, b chosen so that a+b = 2^64+p-2+k
+        let a = u64::MAX - x;
+        let b = (P - 2 + k).wrapping_sub(a); // mod 2^64: b = 2^64+p-2+k-a
+        Triple { a, b, c }
+    });
+    let edge_sub = (0u64..0xFFFF_FFFE, 0u64..5, any_repr()).prop_map(|(a, k, c)| Triple {
+        a,
+        b: (P - 2 + k).wrapping_add(a), // b-a = p-2+k
+        c,
+    });
+    // a*b divisible by 2^64 (x_lo = 0) with x_hi >= 2^32 mostly: the reduce128 borrow branch;
+    // c (often tiny) then gives a non-zero x_lo < x_hi_hi through c + a*b.
+    let mul_borrow = (1u32..64, any::<u64>(), any::<u64>(), any_repr()).prop_map(|(s, u, v, c)| Triple {
+        a: u << s,
+        b: v << (64 - s),
+        c,
+    });
+    bx(prop_oneof![
+        8 => indep, 2 => corr_add, 2 => corr_sub, 2 => both_big, 2 => small_minus_big,
+        1 => edge_add, 1 => edge_sub, 3 => mul_borrow
+    ])
 }
 
 fn check_eq(what: &str, got: F, want: u64, t: &Triple) -> Result<(), String> {
@@ -62,26 +157,39 @@ fn scalar_ops(t: &Triple, st: &mut Stats) -> Result<(), String> {
         st.nontrivial(&(t.a, t.b, t.c));
     }
     // Rare-branch accounting (operand predicates computed here, not read from the code).
-    let (s1, o1) = t.a.overflowing_add(t.b);
-    if o1 && s1.overflowing_add(0xFFFF_FFFF).1 {
+    if add_double_overflow(t.a, t.b) {
         st.label("branch:add_double_overflow");
     }
-    let (d1, u1) = t.a.overflowing_sub(t.b);
-    if u1 && d1.overflowing_sub(0xFFFF_FFFF).1 {
+    if sub_double_underflow(t.a, t.b) {
         st.label("branch:sub_double_underflow");
     }
+    let wide = ((t.a as u128) << 64) | t.b as u128;
+    label_reduce128(st, "mul", t.a as u128 * t.b as u128);
+    label_reduce128(st, "u128", wide);
+    label_reduce128(st, "mac", t.c as u128 + t.a as u128 * t.b as u128);
     st.sample(|| json!({"a": t.a, "b": t.b, "c": t.c}));
 
     check_eq("add", a + b, refmod::add(t.a, t.b), t)?;
+    check_eq("add(b,a)", b + a, refmod::add(t.a, t.b), t)?;
     check_eq("sub", a - b, refmod::sub(t.a, t.b), t)?;
+    check_eq("sub(b,a)", b - a, refmod::sub(t.b, t.a), t)?;
     check_eq("neg", -a, refmod::neg(t.a), t)?;
     check_eq("mul", a * b, refmod::mul(t.a, t.b), t)?;
+    check_eq("mul(b,a)", b * a, refmod::mul(t.a, t.b), t)?;
     check_eq("square", a.square(), refmod::mul(t.a, t.a), t)?;
     check_eq("double", a.double(), refmod::add(t.a, t.a), t)?;
+    check_eq("cube", a.cube(), refmod::mul(t.a, refmod::mul(t.a, t.a)), t)?;
+    check_eq("triple", a.triple(), refmod::mul(t.a, 3), t)?;
     check_eq(
         "multiply_accumulate",
         a.multiply_accumulate(b, c),
         refmod::add(t.a, refmod::mul(t.b, t.c)),
+        t,
+    )?;
+    check_eq(
+        "multiply_accumulate(c;a,b)",
+        c.multiply_accumulate(a, b),
+        refmod::add(t.c, refmod::mul(t.a, t.b)),
         t,
     )?;
     let mut x = a;
@@ -97,11 +205,16 @@ fn scalar_ops(t: &Triple, st: &mut Stats) -> Result<(), String> {
     if a.to_canonical_u64() >= P {
         return Err(format!("to_canonical_u64 not canonical for {:#x}", t.a));
     }
+    if a.to_noncanonical_u64() % P != t.a % P {
+        return Err(format!("to_noncanonical_u64 changes the residue of {:#x}", t.a));
+    }
     if (a == b) != (t.a % P == t.b % P) {
         return Err(format!("eq disagrees with residues for {:#x} {:#x}", t.a, t.b));
     }
+    if a.is_zero() != (t.a % P == 0) || a.is_one() != (t.a % P == 1) || a.is_nonzero() == a.is_zero() {
+        return Err(format!("is_zero/is_one/is_nonzero wrong for {:#x}", t.a));
+    }
     // widening reductions
-    let wide = ((t.a as u128) << 64) | t.b as u128;
     check_eq("from_noncanonical_u128", F::from_noncanonical_u128(wide), refmod::red(wide), t)?;
     let n96 = (t.a, t.b as u32);
     let v96 = ((n96.1 as u128) << 64) | n96.0 as u128;
@@ -114,12 +227,17 @@ fn scalar_ops(t: &Triple, st: &mut Stats) -> Result<(), String> {
     let rc = t.b % P;
     check_eq("add_canonical_u64", unsafe { a.add_canonical_u64(rc) }, refmod::add(t.a, rc), t)?;
     check_eq("sub_canonical_u64", unsafe { a.sub_canonical_u64(rc) }, refmod::sub(t.a, rc), t)?;
+    check_eq("add_one", a.add_one(), refmod::add(t.a, 1), t)?;
+    check_eq("sub_one", a.sub_one(), refmod::sub(t.a, 1), t)?;
     // inversion / exponentiation
     if t.a % P != 0 {
         let inv = a.inverse();
         check_eq("inverse", inv, refmod::inv(t.a), t)?;
         check_eq("a*inv", a * inv, 1, t)?;
         check_eq("div", b / a, refmod::mul(t.b, refmod::inv(t.a)), t)?;
+        let mut x = b;
+        x /= a;
+        check_eq("div_assign", x, refmod::mul(t.b, refmod::inv(t.a)), t)?;
     } else if a.try_inverse().is_some() {
         return Err(format!("try_inverse(0-residue {:#x}) returned Some", t.a));
     }
@@ -129,13 +247,1159 @@ fn scalar_ops(t: &Triple, st: &mut Stats) -> Result<(), String> {
     Ok(())
 }
 
+// ------------------------------------------------------------------------------------------
+// Reference arithmetic in F_p[X]/(X^D - W) on canonical residues (schoolbook)
+// ------------------------------------------------------------------------------------------
+
+#[inline]
+fn cm(a: u64, b: u64) -> u64 {
+    ((a as u128 * b as u128) % P128) as u64
+}
+#[inline]
+fn ca(a: u64, b: u64) -> u64 {
+    ((a as u128 + b as u128) % P128) as u64
+}
+#[inline]
+fn cs(a: u64, b: u64) -> u64 {
+    ((a as u128 % P128 + P128 - b as u128 % P128) % P128) as u64
+}
+
+#[derive(Clone, Copy, Debug)]
+struct XR {
+    d: usize,
+    w: u64,
+}
+
+impl XR {
+    fn canon(&self, v: &[u64]) -> Vec<u64> {
+        v[..self.d].iter().map(|&x| x % P).collect()
+    }
+    fn zero(&self) -> Vec<u64> {
+        vec![0; self.d]
+    }
+    fn base(&self, s: u64) -> Vec<u64> {
+        let mut v = self.zero();
+        v[0] = s % P;
+        v
+    }
+    fn one(&self) -> Vec<u64> {
+        self.base(1)
+    }
+    fn add(&self, a: &[u64], b: &[u64]) -> Vec<u64> {
+        (0..self.d).map(|i| ca(a[i], b[i])).collect()
+    }
+    fn sub(&self, a: &[u64], b: &[u64]) -> Vec<u64> {
+        (0..self.d).map(|i| cs(a[i], b[i])).collect()
+    }
+    fn neg(&self, a: &[u64]) -> Vec<u64> {
+        (0..self.d).map(|i| cs(0, a[i])).collect()
+    }
+    fn scal(&self, a: &[u64], s: u64) -> Vec<u64> {
+        (0..self.d).map(|i| cm(a[i] % P, s % P)).collect()
+    }
+    /// Schoolbook product, then X^k -> W * X^(k-D) for k >= D.
+    fn mul(&self, a: &[u64], b: &[u64]) -> Vec<u64> {
+        let d = self.d;
+        let mut prod = vec![0u64; 2 * d - 1];
+        for i in 0..d {
+            for j in 0..d {
+                prod[i + j] = ca(prod[i + j], cm(a[i] % P, b[j] % P));
+            }
+        }
+        for k in (d..2 * d - 1).rev() {
+            prod[k - d] = ca(prod[k - d], cm(self.w, prod[k]));
+        }
+        prod.truncate(d);
+        prod
+    }
+    fn pow(&self, a: &[u64], e: &BigUint) -> Vec<u64> {
+        let mut acc = self.one();
+        for i in (0..e.bits()).rev() {
+            acc = self.mul(&acc, &acc);
+            if e.bit(i) {
+                acc = self.mul(&acc, a);
+            }
+        }
+        acc
+    }
+    fn pow_u64(&self, a: &[u64], e: u64) -> Vec<u64> {
+        self.pow(a, &BigUint::from(e))
+    }
+    fn is_zero(&self, a: &[u64]) -> bool {
+        a[..self.d].iter().all(|&x| x % P == 0)
+    }
+}
+
+type Ex<const D: usize> = <F as Extendable<D>>::Extension;
+
+fn mk<const D: usize>(v: &[u64]) -> Ex<D>
+where
+    F: Extendable<D>,
+{
+    <Ex<D> as FieldExtension<D>>::from_basefield_array(core::array::from_fn(|i| F(v[i])))
+}
+
+fn res<const D: usize>(e: &Ex<D>) -> Vec<u64>
+where
+    F: Extendable<D>,
+{
+    <Ex<D> as FieldExtension<D>>::to_basefield_array(e)
+        .iter()
+        .map(|x| x.to_canonical_u64())
+        .collect()
+}
+
+fn xr_of<const D: usize>() -> XR
+where
+    F: Extendable<D>,
+{
+    XR { d: D, w: <F as Extendable<D>>::W.to_canonical_u64() }
+}
+
+fn xeq(what: &str, got: &[u64], want: &[u64]) -> Result<(), String> {
+    if got != want {
+        return Err(format!("{}: got {:?} want {:?}", what, got, want));
+    }
+    Ok(())
+}
+
+fn big_from_digits(digits: &[u64]) -> BigUint {
+    // little-endian 64-bit digits
+    digits.iter().rev().fold(BigUint::zero(), |acc, &d| (acc << 64usize) + BigUint::from(d))
+}
+
+// ------------------------------------------------------------------------------------------
+// batch_inverse
+// ------------------------------------------------------------------------------------------
+
+#[derive(Clone, Debug, Serialize, Deserialize)]
+pub struct BatchCase {
+    /// 0 -> base field, 1 -> D=2, 2 -> D=4, 3 -> D=5
+    pub d_sel: u8,
+    /// n*D raw representations
+    pub vals: Vec<u64>,
+}
+
+const DS: [usize; 4] = [1, 2, 4, 5];
+
+fn batch_case() -> BoxedStrategy<BatchCase> {
+    bx((prop_oneof![3 => Just(0u8), 1 => Just(1u8), 1 => Just(2u8), 1 => Just(3u8)], 0usize..=40)
+        .prop_flat_map(|(d_sel, n)| {
+            pvec(any_repr(), n * DS[d_sel as usize]).prop_map(move |vals| BatchCase { d_sel, vals })
+        }))
+}
+
+/// Make every D-chunk a non-zero element without leaving its representation class.
+fn nonzero_chunks(vals: &[u64], d: usize) -> Vec<Vec<u64>> {
+    vals.chunks_exact(d)
+        .map(|c| {
+            let mut c = c.to_vec();
+            if c.iter().all(|&x| x % P == 0) {
+                c[0] += 1; // 0 -> 1, p -> p+1
+            }
+            c
+        })
+        .collect()
+}
+
+fn batch_ext<const D: usize>(elems: &[Vec<u64>]) -> Result<(), String>
+where
+    F: Extendable<D>,
+{
+    let xr = xr_of::<D>();
+    let xs: Vec<Ex<D>> = elems.iter().map(|e| mk::<D>(e)).collect();
+    let inv = Ex::<D>::batch_multiplicative_inverse(&xs);
+    ck!(inv.len() == xs.len(), "batch inverse (D={}) length {} != {}", D, inv.len(), xs.len());
+    for (i, (e, r)) in elems.iter().zip(&inv).enumerate() {
+        let prod = xr.mul(&xr.canon(e), &res::<D>(r));
+        ck!(
+            prod == xr.one(),
+            "batch inverse (D={}) element {} of {}: x*inv = {:?} for x = {:x?}",
+            D,
+            i,
+            elems.len(),
+            prod,
+            e
+        );
+    }
+    Ok(())
+}
+
+fn batch_inverse(c: &BatchCase, st: &mut Stats) -> Result<(), String> {
+    let d = DS[(c.d_sel as usize).min(3)];
+    let elems = nonzero_chunks(&c.vals, d);
+    let n = elems.len();
+    st.label(&format!("batch:D={}", d));
+    st.label(if n <= 3 { "batch:n<=3 special case" } else { "batch:n>=4 four chains" });
+    st.label(&format!("batch:n%4={}", n % 4));
+    st.evals(n as u64);
+    if c.vals.iter().any(|&x| x >= P || is_boundary(x)) {
+        st.nontrivial(&(c.d_sel, &c.vals));
+    }
+    st.sample(|| json!({"d": d, "n": n}));
+    match d {
+        1 => {
+            let xs: Vec<F> = elems.iter().map(|e| F(e[0])).collect();
+            let inv = F::batch_multiplicative_inverse(&xs);
+            ck!(inv.len() == n, "batch inverse length {} != {}", inv.len(), n);
+            for (i, (e, r)) in elems.iter().zip(&inv).enumerate() {
+                let got = r.to_canonical_u64();
+                ck!(
+                    got == refmod::inv(e[0]) && refmod::mul(got, e[0]) == 1,
+                    "batch inverse element {} of {}: got {} want {} for x={:#x}",
+                    i,
+                    n,
+                    got,
+                    refmod::inv(e[0]),
+                    e[0]
+                );
+            }
+            Ok(())
+        }
+        2 => batch_ext::<2>(&elems),
+        4 => batch_ext::<4>(&elems),
+        _ => batch_ext::<5>(&elems),
+    }
+}
+
+// ------------------------------------------------------------------------------------------
+// misc_scalar
+// ------------------------------------------------------------------------------------------
+
+#[derive(Clone, Debug, Serialize, Deserialize)]
+pub enum Misc {
+    ExpBig { a: u64, digits: Vec<u64> },
+    BigConv { a: u64, digits: Vec<u64> },
+    KthRoot { a: u64, k_raw: u16 },
+    SumProd { xs: Vec<u64>, base: u64, start: u64, nth: u8 },
+    FromCanon { a: u64 },
+    Sqrt { a: u64 },
+}
+
+fn misc_case() -> BoxedStrategy<Misc> {
+    let digit = || prop_oneof![2 => any::<u64>(), 1 => any_repr(), 1 => 0u64..4];
+    bx(prop_oneof![
+        3 => (any_repr(), pvec(digit(), 0..=3)).prop_map(|(a, digits)| Misc::ExpBig { a, digits }),
+        2 => (any_repr(), pvec(digit(), 0..=4)).prop_map(|(a, digits)| Misc::BigConv { a, digits }),
+        2 => (any_repr(), any::<u16>()).prop_map(|(a, k_raw)| Misc::KthRoot { a, k_raw }),
+        3 => (pvec(any_repr(), 0..=20), any_repr(), any_repr(), 0u8..40)
+            .prop_map(|(xs, base, start, nth)| Misc::SumProd { xs, base, start, nth }),
+        2 => any_repr().prop_map(|a| Misc::FromCanon { a }),
+        2 => prop_oneof![any_repr(), any_repr().prop_map(|x| refmod::mul(x, x))].prop_map(|a| Misc::Sqrt { a }),
+    ])
+}
+
+fn gcd_u64(mut a: u64, mut b: u64) -> u64 {
+    while b != 0 {
+        let t = a % b;
+        a = b;
+        b = t;
+    }
+    a
+}
+
+/// k in 1..=200 with gcd(k, p-1) = 1: the documented precondition of `kth_root_u64`.
+fn admissible_roots() -> Vec<u64> {
+    (1u64..=200).filter(|&k| gcd_u64(k, P - 1) == 1).collect()
+}
+
+fn feq(what: &str, got: F, want: u64) -> Result<(), String> {
+    ck!(got.to_canonical_u64() == want, "{}: got {} want {}", what, got.to_canonical_u64(), want);
+    Ok(())
+}
+
+fn misc_scalar(c: &Misc, st: &mut Stats) -> Result<(), String> {
+    let pbig = BigUint::from(P);
+    match c {
+        Misc::ExpBig { a, digits } => {
+            st.label("misc:exp_biguint");
+            if *a >= P || is_boundary(*a) {
+                st.nontrivial(&(1u8, a, digits));
+            }
+            let e = big_from_digits(digits);
+            let want = BigUint::from(*a % P).modpow(&e, &pbig);
+            let got = F(*a).exp_biguint(&e);
+            ck!(
+                BigUint::from(got.to_canonical_u64()) == want,
+                "exp_biguint({:#x}, {}) = {} want {}",
+                a,
+                e,
+                got.to_canonical_u64(),
+                want
+            );
+        }
+        Misc::BigConv { a, digits } => {
+            st.label("misc:biguint_conv");
+            if *a >= P || digits.len() > 1 {
+                st.nontrivial(&(2u8, a, digits));
+            }
+            let n = big_from_digits(digits);
+            let want = n.mod_floor(&pbig);
+            let got = F::from_noncanonical_biguint(n.clone());
+            ck!(
+                BigUint::from(got.to_canonical_u64()) == want,
+                "from_noncanonical_biguint({}) = {} want {}",
+                n,
+                got.to_canonical_u64(),
+                want
+            );
+            ck!(
+                F(*a).to_canonical_biguint() == BigUint::from(*a % P),
+                "to_canonical_biguint({:#x}) = {}",
+                a,
+                F(*a).to_canonical_biguint()
+            );
+        }
+        Misc::KthRoot { a, k_raw } => {
+            let ks = admissible_roots();
+            let k = ks[frac(*k_raw, ks.len())];
+            st.label("misc:kth_root");
+            if *a >= P || is_boundary(*a) {
+                st.nontrivial(&(3u8, a, k));
+            }
+            let r = F(*a).kth_root_u64(k);
+            ck!(
+                refmod::pow(r.to_canonical_u64(), k as u128) == *a % P,
+                "kth_root_u64({:#x}, {}) = {}: root^k = {}",
+                a,
+                k,
+                r.to_canonical_u64(),
+                refmod::pow(r.to_canonical_u64(), k as u128)
+            );
+        }
+        Misc::SumProd { xs, base, start, nth } => {
+            st.label("misc:sum_product_powers");
+            if xs.iter().any(|&x| x >= P) || *base >= P {
+                st.nontrivial(&(4u8, xs, base, start, nth));
+            }
+            let fs: Vec<F> = xs.iter().map(|&x| F(x)).collect();
+            feq("Sum", fs.iter().copied().sum::<F>(), xs.iter().fold(0, |acc, &x| refmod::add(acc, x)))?;
+            feq("Product", fs.iter().copied().product::<F>(), xs.iter().fold(1, |acc, &x| refmod::mul(acc, x)))?;
+            let n = xs.len();
+            let pw: Vec<F> = F(*base).powers().take(n + 1).collect();
+            let spw: Vec<F> = F(*base).shifted_powers(F(*start)).take(n + 1).collect();
+            for i in 0..=n {
+                let bi = refmod::pow(*base, i as u128);
+                feq("powers()[i]", pw[i], bi)?;
+                feq("shifted_powers()[i]", spw[i], refmod::mul(*start, bi))?;
+            }
+            let mut it = F(*base).shifted_powers(F(*start));
+            let nth = *nth as usize;
+            let got = it.nth(nth).unwrap();
+            feq("powers().nth", got, refmod::mul(*start, refmod::pow(*base, nth as u128)))?;
+            let nxt = it.next().unwrap();
+            feq("powers().nth then next", nxt, refmod::mul(*start, refmod::pow(*base, nth as u128 + 1)))?;
+            let sub = F::cyclic_subgroup_coset_known_order(F(*base), F(*start), n);
+            ck!(sub.len() == n, "cyclic_subgroup_coset_known_order length");
+            for i in 0..n {
+                feq("coset_known_order[i]", sub[i], refmod::mul(*start, refmod::pow(*base, i as u128)))?;
+            }
+        }
+        Misc::FromCanon { a } => {
+            // the precondition (canonical input) is enforced here so that shrinking cannot break it
+            let a = *a % P;
+            st.label("misc:from_canonical");
+            if is_boundary(a) {
+                st.nontrivial(&(5u8, a));
+            }
+            feq("from_canonical_u64", F::from_canonical_u64(a), a)?;
+            feq("from_canonical_u32", F::from_canonical_u32(a as u32), (a as u32) as u64)?;
+            feq("from_canonical_u16", F::from_canonical_u16(a as u16), (a as u16) as u64)?;
+            feq("from_canonical_u8", F::from_canonical_u8(a as u8), (a as u8) as u64)?;
+            feq("from_canonical_usize", F::from_canonical_usize(a as usize), a)?;
+            if a < (1u64 << 63) {
+                feq("from_canonical_i64", F::from_canonical_i64(a as i64), a)?;
+            }
+            feq("from_bool", F::from_bool(a & 1 == 1), a & 1)?;
+            feq("to_canonical", F(a).to_canonical(), a)?;
+        }
+        Misc::Sqrt { a } => {
+            st.label("misc:sqrt");
+            if *a >= P || is_boundary(*a) {
+                st.nontrivial(&(6u8, a));
+            }
+            let is_qr = *a % P == 0 || refmod::pow(*a, ((P - 1) / 2) as u128) == 1;
+            ck!(F(*a).is_quadratic_residue() == is_qr, "is_quadratic_residue({:#x}) != {}", a, is_qr);
+            match F(*a).sqrt() {
+                Some(s) => {
+                    st.label("misc:sqrt_some");
+                    ck!(is_qr, "sqrt({:#x}) = Some for a non-residue", a);
+                    let s = s.to_canonical_u64();
+                    ck!(refmod::mul(s, s) == *a % P, "sqrt({:#x}) = {}: s^2 = {}", a, s, refmod::mul(s, s));
+                }
+                None => {
+                    st.label("misc:sqrt_none");
+                    ck!(!is_qr, "sqrt({:#x}) = None for a residue", a);
+                }
+            }
+        }
+    }
+    Ok(())
+}
+
+// ------------------------------------------------------------------------------------------
+// field_consts (deterministic facts about the base field; one fixed case)
+// ------------------------------------------------------------------------------------------
+
+#[derive(Clone, Debug, Serialize, Deserialize)]
+pub struct Fixed {
+    pub all: bool,
+}
+
+fn fixed_case() -> BoxedStrategy<Fixed> {
+    bx(Just(Fixed { all: true }))
+}
+
+const PM1_ODD_FACTORS: [u64; 5] = [3, 5, 17, 257, 65537];
+
+fn field_consts(_c: &Fixed, st: &mut Stats) -> Result<(), String> {
+    // p - 1 = 2^32 * 3 * 5 * 17 * 257 * 65537, so the q-list below is the complete prime list.
+    let odd: u128 = PM1_ODD_FACTORS.iter().map(|&q| q as u128).product();
+    ck!((odd << 32) == (P - 1) as u128, "harness: factorisation of p-1 is wrong");
+    ck!(F::ORDER == P, "ORDER != p");
+    ck!(F::order() == BigUint::from(P) && F::characteristic() == BigUint::from(P), "order()/characteristic() != p");
+    ck!(F::TWO_ADICITY == 32 && F::CHARACTERISTIC_TWO_ADICITY == 32 && F::BITS == 64, "TWO_ADICITY/BITS");
+    feq("ZERO", F::ZERO, 0)?;
+    feq("ONE", F::ONE, 1)?;
+    feq("TWO", F::TWO, 2)?;
+    feq("NEG_ONE", F::NEG_ONE, P - 1)?;
+    feq("default", F::default(), 0)?;
+    let g = F::MULTIPLICATIVE_GROUP_GENERATOR.to_canonical_u64();
+    feq("coset_shift", F::coset_shift(), g)?;
+    ck!(g != 0 && refmod::pow(g, (P - 1) as u128) == 1, "g^(p-1) != 1");
+    for q in [2u64].iter().chain(PM1_ODD_FACTORS.iter()) {
+        ck!(refmod::pow(g, ((P - 1) / q) as u128) != 1, "MULTIPLICATIVE_GROUP_GENERATOR^((p-1)/{}) == 1", q);
+        st.evals(1);
+    }
+    let h = F::POWER_OF_TWO_GENERATOR.to_canonical_u64();
+    ck!(refmod::pow(h, 1u128 << 32) == 1, "POWER_OF_TWO_GENERATOR^(2^32) != 1");
+    ck!(refmod::pow(h, 1u128 << 31) == P - 1, "POWER_OF_TWO_GENERATOR^(2^31) != -1");
+    ck!(
+        refmod::pow(g, ((P - 1) >> 32) as u128) == h,
+        "POWER_OF_TWO_GENERATOR != g^((p-1)/2^32) (relation stated next to the constant)"
+    );
+    for n_log in 0..=32usize {
+        let r = F::primitive_root_of_unity(n_log).to_canonical_u64();
+        ck!(refmod::pow(r, 1u128 << n_log) == 1, "primitive_root_of_unity({})^(2^n) != 1", n_log);
+        if n_log >= 1 {
+            ck!(
+                refmod::pow(r, 1u128 << (n_log - 1)) == P - 1,
+                "primitive_root_of_unity({})^(2^(n-1)) != -1",
+                n_log
+            );
+            let prev = F::primitive_root_of_unity(n_log - 1).to_canonical_u64();
+            ck!(refmod::mul(r, r) == prev, "primitive_root_of_unity({})^2 != primitive_root_of_unity(n-1)", n_log);
+        } else {
+            ck!(r == 1, "primitive_root_of_unity(0) != 1");
+        }
+        st.evals(1);
+    }
+    for n_log in 0..=12usize {
+        let r = F::primitive_root_of_unity(n_log).to_canonical_u64();
+        let sub = F::two_adic_subgroup(n_log);
+        ck!(sub.len() == 1 << n_log, "two_adic_subgroup({}) length {}", n_log, sub.len());
+        let mut cur = 1u64;
+        for (i, s) in sub.iter().enumerate() {
+            ck!(s.to_canonical_u64() == cur, "two_adic_subgroup({})[{}] != g^i", n_log, i);
+            ck!(i == 0 || cur != 1, "two_adic_subgroup({}) repeats 1 at {}", n_log, i);
+            cur = refmod::mul(cur, r);
+        }
+        ck!(cur == 1, "two_adic_subgroup({}): g^(2^n) != 1", n_log);
+        if n_log <= 10 {
+            let gr = F::primitive_root_of_unity(n_log);
+            if n_log >= 1 {
+                ck!(F::generator_order(gr) == 1 << n_log, "generator_order(root({}))", n_log);
+            }
+            let u = F::cyclic_subgroup_unknown_order(gr);
+            let k = F::cyclic_subgroup_known_order(gr, 1 << n_log);
+            ck!(u.len() == 1 << n_log && k.len() == 1 << n_log, "cyclic_subgroup_*_order(root({})) length", n_log);
+            for i in 0..u.len() {
+                ck!(u[i] == sub[i] && k[i] == sub[i], "cyclic_subgroup_*_order(root({}))[{}]", n_log, i);
+            }
+        }
+        st.evals(1);
+    }
+    for exp in 0..=200usize {
+        let inv = F::inverse_2exp(exp).to_canonical_u64();
+        ck!(
+            refmod::mul(refmod::pow(2, exp as u128), inv) == 1,
+            "inverse_2exp({}) = {}: 2^exp * result != 1",
+            exp,
+            inv
+        );
+        st.evals(1);
+    }
+    for k in 0u64..=300 {
+        let want = k == 1 || (k >= 2 && gcd_u64(k, P - 1) == 1);
+        ck!(F::is_monomial_permutation_u64(k) == want, "is_monomial_permutation_u64({}) != {}", k, want);
+    }
+    // binomials X^D - W: irreducible iff W is not a q-th power for each prime q | D (and p = 1 mod 4 for 4 | D)
+    ck!(P % 4 == 1, "harness: p mod 4");
+    st.label("consts:base_field");
+    Ok(())
+}
+
+// ------------------------------------------------------------------------------------------
+// ext_ops
+// ------------------------------------------------------------------------------------------
+
+#[derive(Clone, Debug, Serialize, Deserialize)]
+pub struct ExtCase {
+    /// 0 -> D=2, 1 -> D=4, 2 -> D=5
+    pub d_sel: u8,
+    /// 5 raw coefficient representations each; the first D are used
+    pub a: Vec<u64>,
+    pub b: Vec<u64>,
+    pub c: Vec<u64>,
+    pub s: u64,
+    pub e: u64,
+    pub k: u8,
+}
+
+fn ext_case() -> BoxedStrategy<ExtCase> {
+    let coef5 = || pvec(any_repr(), 5);
+    let indep = (coef5(), coef5());
+    // all products divisible by 2^64: the low word of every delayed-reduction accumulator is 0
+    // while bits 96.. are not -> borrow branch of reduce160
+    let lowzero = (pvec(any::<u32>(), 5), pvec(any::<u32>(), 5)).prop_map(|(u, v)| {
+        (
+            u.into_iter().map(|x| (x as u64) << 32).collect::<Vec<_>>(),
+            v.into_iter().map(|x| (x as u64) << 32).collect::<Vec<_>>(),
+        )
+    });
+    let shifted = (1u32..64, pvec(any::<u64>(), 5), pvec(any::<u64>(), 5)).prop_map(|(s, u, v)| {
+        (
+            u.into_iter().map(|x| x << s).collect::<Vec<_>>(),
+            v.into_iter().map(|x| x << (64 - s)).collect::<Vec<_>>(),
+        )
+    });
+    // every coefficient near 2^64: largest accumulators (carry words of the 160-bit sums)
+    let huge = (pvec(small(), 5), pvec(small(), 5)).prop_map(|(u, v)| {
+        (
+            u.into_iter().map(|k| u64::MAX - k).collect::<Vec<_>>(),
+            v.into_iter().map(|k| u64::MAX - k).collect::<Vec<_>>(),
+        )
+    });
+    let pair = prop_oneof![6 => indep, 2 => lowzero, 2 => shifted, 1 => huge];
+    let e = prop_oneof![2 => any::<u64>(), 1 => 0u64..70, 1 => any_repr()];
+    bx((0u8..3, pair, coef5(), any_repr(), e, 0u8..=255).prop_map(|(d_sel, (a, b), c, s, e, k)| ExtCase {
+        d_sel,
+        a,
+        b,
+        c,
+        s,
+        e,
+        k,
+    }))
+}
+
+/// Does coefficient `k` of the delayed-reduction product hit the borrow branch of reduce160?
+/// The exact integer S_k = sum_{i+j=k} a_i b_j + W * sum_{i+j=k+D} a_i b_j (raw representations).
+fn reduce160_borrow(a: &[u64], b: &[u64], d: usize, w: u64, k: usize) -> bool {
+    let mut lo: u128 = 0;
+    let mut hi: u64 = 0;
+    for i in 0..d {
+        for j in 0..d {
+            let times = if i + j == k {
+                1
+            } else if i + j == k + d {
+                w
+            } else {
+                0
+            };
+            for _ in 0..times {
+                let (s, cy) = lo.overflowing_add(a[i] as u128 * b[j] as u128);
+                lo = s;
+                hi += cy as u64;
+            }
+        }
+    }
+    let x_hi = (lo >> 96) as u64 + (hi << 32);
+    (lo as u64) < x_hi
+}
+
+const ROOT_CANDIDATES: [u64; 8] = [7, 11, 13, 19, 23, 29, 31, 37];
+
+fn ext_ops(c: &ExtCase, st: &mut Stats) -> Result<(), String> {
+    if c.a.len() != 5 || c.b.len() != 5 || c.c.len() != 5 {
+        return Ok(()); // malformed (hand-edited) case
+    }
+    match c.d_sel {
+        0 => ext_ops_d::<2>(c, st),
+        1 => ext_ops_d::<4>(c, st),
+        _ => ext_ops_d::<5>(c, st),
+    }
+}
+
+fn ext_ops_d<const D: usize>(c: &ExtCase, st: &mut Stats) -> Result<(), String>
+where
+    F: Extendable<D>,
+{
+    let xr = xr_of::<D>();
+    let (ar, br, cr) = (&c.a[..D], &c.b[..D], &c.c[..D]);
+    let (a, b, cc) = (mk::<D>(ar), mk::<D>(br), mk::<D>(cr));
+    let (ac, bc, ccn) = (xr.canon(ar), xr.canon(br), xr.canon(cr));
+    let s = F(c.s);
+    st.label(&format!("ext:D={}", D));
+    if ar.iter().chain(br).any(|&x| x >= P || is_boundary(x)) {
+        st.nontrivial(&(c.d_sel, ar, br, cr, c.s, c.e, c.k));
+    }
+    for k in 0..D {
+        st.label("ext:reduce160_calls");
+        if reduce160_borrow(ar, br, D, xr.w, k) {
+            st.label("branch:reduce160_borrow");
+        }
+    }
+    st.sample(|| json!({"D": D, "a": ar, "b": br}));
+
+    // ring operations against the schoolbook reference
+    xeq("ext add", &res::<D>(&(a + b)), &xr.add(&ac, &bc))?;
+    xeq("ext sub", &res::<D>(&(a - b)), &xr.sub(&ac, &bc))?;
+    xeq("ext neg", &res::<D>(&(-a)), &xr.neg(&ac))?;
+    let ab = xr.mul(&ac, &bc);
+    xeq("ext mul", &res::<D>(&(a * b)), &ab)?;
+    xeq("ext mul(b,a)", &res::<D>(&(b * a)), &ab)?;
+    xeq("ext square", &res::<D>(&a.square()), &xr.mul(&ac, &ac))?;
+    xeq("ext square(b)", &res::<D>(&b.square()), &xr.mul(&bc, &bc))?;
+    xeq("ext double", &res::<D>(&a.double()), &xr.add(&ac, &ac))?;
+    xeq("ext cube", &res::<D>(&a.cube()), &xr.mul(&ac, &xr.mul(&ac, &ac)))?;
+    xeq("ext triple", &res::<D>(&a.triple()), &xr.scal(&ac, 3))?;
+    xeq(
+        "ext scalar_mul",
+        &res::<D>(&<Ex<D> as FieldExtension<D>>::scalar_mul(&a, s)),
+        &xr.scal(&ac, c.s),
+    )?;
+    let s_emb = <Ex<D> as FieldExtension<D>>::from_basefield(s);
+    xeq("ext from_basefield", &res::<D>(&s_emb), &xr.base(c.s))?;
+    xeq("ext From<F>", &res::<D>(&Ex::<D>::from(s)), &xr.base(c.s))?;
+    xeq("ext mul by embedded scalar", &res::<D>(&(a * s_emb)), &xr.scal(&ac, c.s))?;
+    xeq(
+        "ext multiply_accumulate",
+        &res::<D>(&cc.multiply_accumulate(a, b)),
+        &xr.add(&ccn, &ab),
+    )?;
+    let mut x = a;
+    x += b;
+    xeq("ext add_assign", &res::<D>(&x), &xr.add(&ac, &bc))?;
+    let mut x = a;
+    x -= b;
+    xeq("ext sub_assign", &res::<D>(&x), &xr.sub(&ac, &bc))?;
+    let mut x = a;
+    x *= b;
+    xeq("ext mul_assign", &res::<D>(&x), &ab)?;
+    xeq("ext Sum", &res::<D>(&[a, b, cc].into_iter().sum::<Ex<D>>()), &xr.add(&xr.add(&ac, &bc), &ccn))?;
+    xeq("ext Product", &res::<D>(&[a, b, cc].into_iter().product::<Ex<D>>()), &xr.mul(&ab, &ccn))?;
+    xeq("ext empty Sum", &res::<D>(&core::iter::empty::<Ex<D>>().sum::<Ex<D>>()), &xr.zero())?;
+    xeq("ext empty Product", &res::<D>(&core::iter::empty::<Ex<D>>().product::<Ex<D>>()), &xr.one())?;
+
+    // equality / zero tests follow residues
+    ck!((a == b) == (ac == bc), "ext eq disagrees with residues");
+    ck!(a.is_zero() == xr.is_zero(&ac), "ext is_zero disagrees with residues");
+    ck!(
+        <Ex<D> as FieldExtension<D>>::is_in_basefield(&a) == ac[1..].iter().all(|&x| x == 0),
+        "ext is_in_basefield disagrees with residues"
+    );
+    // an element of the base field written with non-canonical zeros
+    let mut in_base: Vec<u64> = (0..D).map(|i| if (c.k >> i) & 1 == 1 { P } else { 0 }).collect();
+    in_base[0] = c.s;
+    ck!(
+        <Ex<D> as FieldExtension<D>>::is_in_basefield(&mk::<D>(&in_base)),
+        "ext is_in_basefield false for {:x?}",
+        in_base
+    );
+
+    // field axioms on the implementation itself
+    xeq("ext assoc add", &res::<D>(&((a + b) + cc)), &res::<D>(&(a + (b + cc))))?;
+    xeq("ext assoc mul", &res::<D>(&((a * b) * cc)), &res::<D>(&(a * (b * cc))))?;
+    xeq("ext distributivity", &res::<D>(&(a * (b + cc))), &res::<D>(&(a * b + a * cc)))?;
+    xeq("ext distributivity (ref)", &res::<D>(&(a * (b + cc))), &xr.mul(&ac, &xr.add(&bc, &ccn)))?;
+    xeq("ext a-a", &res::<D>(&(a - a)), &xr.zero())?;
+    xeq("ext a*1", &res::<D>(&(a * Ex::<D>::ONE)), &ac)?;
+    xeq("ext a+0", &res::<D>(&(a + Ex::<D>::ZERO)), &ac)?;
+
+    // inversion and division
+    if xr.is_zero(&ac) {
+        st.label("ext:zero_operand");
+        ck!(a.try_inverse().is_none(), "ext try_inverse(zero in representation {:x?}) returned Some", ar);
+    } else {
+        let inv = a.try_inverse().ok_or_else(|| format!("ext try_inverse({:x?}) = None", ar))?;
+        xeq("ext x * x^-1", &xr.mul(&ac, &res::<D>(&inv)), &xr.one())?;
+        xeq("ext inverse()", &res::<D>(&a.inverse()), &res::<D>(&inv))?;
+        let q = b / a;
+        xeq("ext (b/a)*a", &xr.mul(&res::<D>(&q), &ac), &bc)?;
+        let mut x = b;
+        x /= a;
+        xeq("ext div_assign", &res::<D>(&x), &res::<D>(&q))?;
+    }
+
+    // Frobenius: x -> x^p with x^p from the reference square-and-multiply
+    let pbig = BigUint::from(P);
+    let mut chain = vec![ac.clone()];
+    for i in 0..D {
+        let nxt = xr.pow(&chain[i], &pbig);
+        chain.push(nxt);
+    }
+    ck!(chain[D] == ac, "oracle self-check failed: x^(p^D) != x in the reference");
+    xeq("ext frobenius", &res::<D>(&a.frobenius()), &chain[1])?;
+    for k in 0..=2 * D {
+        xeq(
+            &format!("ext repeated_frobenius({})", k),
+            &res::<D>(&a.repeated_frobenius(k)),
+            &chain[k % D],
+        )?;
+    }
+    st.evals(2 * D as u64 + 2);
+
+    // exponentiation
+    xeq("ext exp_u64", &res::<D>(&a.exp_u64(c.e)), &xr.pow_u64(&ac, c.e))?;
+    let e2 = big_from_digits(&[c.e, c.s]);
+    xeq("ext exp_biguint", &res::<D>(&a.exp_biguint(&e2)), &xr.pow(&ac, &e2))?;
+    let k2 = (c.k % 8) as usize;
+    xeq("ext exp_power_of_2", &res::<D>(&a.exp_power_of_2(k2)), &xr.pow_u64(&ac, 1u64 << k2))?;
+
+    // k-th roots for k coprime to p^D - 1 (documented precondition of kth_root_u64)
+    let kroot = ROOT_CANDIDATES[(c.k as usize) % ROOT_CANDIDATES.len()];
+    let order_m1 = pbig.pow(D as u32) - 1u32;
+    if order_m1.gcd(&BigUint::from(kroot)).is_one() {
+        st.label("ext:kth_root");
+        let r = a.kth_root_u64(kroot);
+        xeq(&format!("ext kth_root_u64({})^k", kroot), &xr.pow_u64(&res::<D>(&r), kroot), &ac)?;
+    } else {
+        st.label("ext:kth_root_inadmissible_k_skipped");
+    }
+
+    // embeddings of integers
+    let sc = c.s % P;
+    xeq("ext from_canonical_u64", &res::<D>(&Ex::<D>::from_canonical_u64(sc)), &xr.base(sc))?;
+    xeq("ext from_noncanonical_u64", &res::<D>(&Ex::<D>::from_noncanonical_u64(c.s)), &xr.base(c.s))?;
+    let wide = ((c.s as u128) << 64) | c.e as u128;
+    xeq(
+        "ext from_noncanonical_u128",
+        &res::<D>(&Ex::<D>::from_noncanonical_u128(wide)),
+        &xr.base(refmod::red(wide)),
+    )?;
+    let i = c.s as i64;
+    let want_i = if i >= 0 { (i as u64) % P } else { refmod::neg(i.unsigned_abs()) };
+    xeq("ext from_noncanonical_i64", &res::<D>(&Ex::<D>::from_noncanonical_i64(i)), &xr.base(want_i))?;
+    xeq(
+        "ext from_noncanonical_biguint",
+        &res::<D>(&Ex::<D>::from_noncanonical_biguint(e2.clone())),
+        &xr.base((e2.mod_floor(&pbig)).iter_u64_digits().next().unwrap_or(0)),
+    )?;
+    Ok(())
+}
+
+// ------------------------------------------------------------------------------------------
+// ext_consts (deterministic facts about the three extensions; one fixed case)
+// ------------------------------------------------------------------------------------------
+
+fn small_primes(limit: u32) -> Vec<u32> {
+    let mut sieve = vec![true; limit as usize + 1];
+    let mut out = vec![];
+    for i in 2..=limit as usize {
+        if sieve[i] {
+            out.push(i as u32);
+            let mut j = i * i;
+            while j <= limit as usize {
+                sieve[j] = false;
+                j += i;
+            }
+        }
+    }
+    out
+}
+
+fn ext_consts_d<const D: usize>(w_literal: u64, st: &mut Stats) -> Result<(), String>
+where
+    F: Extendable<D>,
+{
+    let xr = xr_of::<D>();
+    let pbig = BigUint::from(P);
+    ck!(xr.w == w_literal, "D={}: Extendable::W = {} but the documented binomial uses {}", D, xr.w, w_literal);
+    ck!(<Ex<D> as OEF<D>>::W.to_canonical_u64() == w_literal, "D={}: OEF::W", D);
+    // X^D - W irreducible: W is not a q-th power for each prime q | D (4 | D needs p = 1 mod 4: checked)
+    for q in [2u64, 5] {
+        if D as u64 % q == 0 {
+            ck!(refmod::pow(xr.w, ((P - 1) / q) as u128) != 1, "D={}: W is a {}-th power, X^D-W reducible", D, q);
+        }
+    }
+    let dth = refmod::pow(xr.w, ((P - 1) / D as u64) as u128);
+    ck!((P - 1) % D as u64 == 0, "harness: D does not divide p-1");
+    ck!(<F as Extendable<D>>::DTH_ROOT.to_canonical_u64() == dth, "D={}: DTH_ROOT != W^((p-1)/D)", D);
+    ck!(<Ex<D> as OEF<D>>::DTH_ROOT.to_canonical_u64() == dth, "D={}: OEF::DTH_ROOT", D);
+    xeq("ext ZERO", &res::<D>(&Ex::<D>::ZERO), &xr.zero())?;
+    xeq("ext ONE", &res::<D>(&Ex::<D>::ONE), &xr.one())?;
+    xeq("ext TWO", &res::<D>(&Ex::<D>::TWO), &xr.base(2))?;
+    xeq("ext NEG_ONE", &res::<D>(&Ex::<D>::NEG_ONE), &xr.base(P - 1))?;
+    xeq("ext default", &res::<D>(&Ex::<D>::default()), &xr.zero())?;
+    let order = pbig.pow(D as u32);
+    ck!(Ex::<D>::order() == order, "D={}: order() != p^D", D);
+    ck!(Ex::<D>::characteristic() == pbig, "D={}: characteristic() != p", D);
+    ck!(Ex::<D>::BITS == 64 * D, "D={}: BITS", D);
+    ck!(Ex::<D>::CHARACTERISTIC_TWO_ADICITY == 32, "D={}: CHARACTERISTIC_TWO_ADICITY", D);
+    let om1 = &order - 1u32;
+    let ta = Ex::<D>::TWO_ADICITY;
+    ck!(om1.trailing_zeros() == Some(ta as u64), "D={}: TWO_ADICITY {} != v2(p^D-1) {:?}", D, ta, om1.trailing_zeros());
+
+    // generators
+    let h = res::<D>(&Ex::<D>::POWER_OF_TWO_GENERATOR);
+    xeq("EXT_POWER_OF_TWO_GENERATOR array", &h, &xr.canon(&<F as Extendable<D>>::EXT_POWER_OF_TWO_GENERATOR.map(|x| x.0)))?;
+    let two_to = |n: usize| BigUint::one() << n;
+    ck!(xr.pow(&h, &two_to(ta)) == xr.one(), "D={}: EXT_POWER_OF_TWO_GENERATOR^(2^TWO_ADICITY) != 1", D);
+    ck!(xr.pow(&h, &two_to(ta - 1)) == xr.base(P - 1), "D={}: EXT_POWER_OF_TWO_GENERATOR^(2^(TWO_ADICITY-1)) != -1", D);
+    // same facts through the implementation's own exponentiation
+    xeq("impl h^(2^TA)", &res::<D>(&Ex::<D>::POWER_OF_TWO_GENERATOR.exp_power_of_2(ta)), &xr.one())?;
+    xeq("impl h^(2^(TA-1))", &res::<D>(&Ex::<D>::POWER_OF_TWO_GENERATOR.exp_power_of_2(ta - 1)), &xr.base(P - 1))?;
+    // documented: h^(2^(TA - base TA)) is the base field's POWER_OF_TWO_GENERATOR
+    ck!(
+        xr.pow(&h, &two_to(ta - 32)) == xr.base(F::POWER_OF_TWO_GENERATOR.to_canonical_u64()),
+        "D={}: EXT_POWER_OF_TWO_GENERATOR^(2^(TA-32)) != base POWER_OF_TWO_GENERATOR",
+        D
+    );
+    let g = res::<D>(&Ex::<D>::MULTIPLICATIVE_GROUP_GENERATOR);
+    xeq("EXT_MULTIPLICATIVE_GROUP_GENERATOR array", &g, &xr.canon(&<F as Extendable<D>>::EXT_MULTIPLICATIVE_GROUP_GENERATOR.map(|x| x.0)))?;
+    ck!(!xr.is_zero(&g) && xr.pow(&g, &om1) == xr.one(), "D={}: g^(p^D-1) != 1", D);
+    // documented: g^((p^D-1) >> TWO_ADICITY) == EXT_POWER_OF_TWO_GENERATOR
+    ck!(
+        xr.pow(&g, &(&om1 >> ta)) == h,
+        "D={}: EXT_MULTIPLICATIVE_GROUP_GENERATOR^((p^D-1)>>TWO_ADICITY) != EXT_POWER_OF_TWO_GENERATOR",
+        D
+    );
+    // The coset shift used by FRI must lie outside every 2-power subgroup.
+    ck!(xr.pow(&g, &two_to(ta)) != xr.one(), "D={}: MULTIPLICATIVE_GROUP_GENERATOR lies in the 2^TWO_ADICITY subgroup", D);
+    // `Field::MULTIPLICATIVE_GROUP_GENERATOR` is described as a generator of the whole group. That claim
+    // is outside the relation `Extendable` documents (checked above), and for D = 2, 4 the constant has
+    // the shape c*X, so g^D lies in the base field and its order divides D(p-1) < p^D-1. It is recorded
+    // as an observation, not judged: g^((p^D-1)/q) for every prime q < 2^17 dividing p^D-1.
+    let mut qs = 0;
+    for q in small_primes(131_072) {
+        if (&om1 % q).is_zero() {
+            qs += 1;
+            if xr.pow(&g, &(&om1 / q)) == xr.one() {
+                st.label(&format!(
+                    "observation:D={} MULTIPLICATIVE_GROUP_GENERATOR^((p^D-1)/{}) == 1 (not a generator of the whole group)",
+                    D, q
+                ));
+            }
+        }
+    }
+    ck!(qs >= 6, "harness: expected at least the 6 prime factors of p-1 to divide p^D-1");
+    st.label_n(&format!("consts:D={} small prime factors of p^D-1 examined", D), qs);
+    // roots of unity: exact order, and coherent with the base field for n_log <= 32
+    for n_log in 0..=ta {
+        let r = res::<D>(&Ex::<D>::primitive_root_of_unity(n_log));
+        ck!(xr.pow(&r, &two_to(n_log)) == xr.one(), "D={}: primitive_root_of_unity({})^(2^n) != 1", D, n_log);
+        if n_log >= 1 {
+            ck!(
+                xr.pow(&r, &two_to(n_log - 1)) == xr.base(P - 1),
+                "D={}: primitive_root_of_unity({})^(2^(n-1)) != -1",
+                D,
+                n_log
+            );
+        }
+        if n_log <= 32 {
+            ck!(
+                r == xr.base(F::primitive_root_of_unity(n_log).to_canonical_u64()),
+                "D={}: primitive_root_of_unity({}) differs from the base field's",
+                D,
+                n_log
+            );
+        }
+        st.evals(1);
+    }
+    for exp in 0..=200usize {
+        let inv = res::<D>(&Ex::<D>::inverse_2exp(exp));
+        ck!(
+            xr.scal(&inv, refmod::pow(2, exp as u128)) == xr.one(),
+            "D={}: inverse_2exp({}) * 2^exp != 1",
+            D,
+            exp
+        );
+        st.evals(1);
+    }
+    st.label(&format!("consts:D={}", D));
+    Ok(())
+}
+
+fn ext_consts(_c: &Fixed, st: &mut Stats) -> Result<(), String> {
+    // literals: the binomials documented in goldilocks_extensions.rs (x^2-7, x^4-7, x^5-3)
+    ext_consts_d::<2>(7, st)?;
+    ext_consts_d::<4>(7, st)?;
+    ext_consts_d::<5>(3, st)?;
+    Ok(())
+}
+
+// ------------------------------------------------------------------------------------------
+// packed_ops
+// ------------------------------------------------------------------------------------------
+
+// With `specialization`, the *default* `Packable::Packing` (scalar build) is an opaque projection that
+// cannot be normalised here, so the scalar build names the type directly (and checks at run time that
+// the default packing really has width 1); AVX builds normalise to the crate-private vector type.
+#[cfg(all(target_arch = "x86_64", target_feature = "avx2"))]
+type PF = <F as Packable>::Packing;
+#[cfg(not(all(target_arch = "x86_64", target_feature = "avx2")))]
+type PF = F;
+const MAX_WIDTH: usize = 8;
+
+#[derive(Clone, Debug, Serialize, Deserialize)]
+pub struct PackedCase {
+    /// MAX_WIDTH lane triples; the first WIDTH are used
+    pub lanes: Vec<Triple>,
+    pub s: u64,
+    /// operand pairs for batch_multiply_inplace / batch_add_inplace (packed part + leftovers)
+    pub blk: Vec<(u64, u64)>,
+}
+
+fn packed_case() -> BoxedStrategy<PackedCase> {
+    bx((pvec(triple(), MAX_WIDTH), any_repr(), pvec((any_repr(), any_repr()), 0..=40))
+        .prop_map(|(lanes, s, blk)| PackedCase { lanes, s, blk }))
+}
+
+fn lanes_eq(what: &str, got: &PF, want: &[u64]) -> Result<(), String> {
+    let g: Vec<u64> = got.as_slice().iter().map(|x| x.to_canonical_u64()).collect();
+    if g != want {
+        return Err(format!("packed(width {}) {}: got {:?} want {:?}", PF::WIDTH, what, g, want));
+    }
+    Ok(())
+}
+
+/// Reference interleave, written from the doc comment of `PackedField::interleave`: stack the two
+/// vectors, cut them into blocks of `bl` lanes and transpose every 2x2 matrix of blocks.
+fn ref_interleave(a: &[u64], b: &[u64], bl: usize) -> (Vec<u64>, Vec<u64>) {
+    let w = a.len();
+    if bl == w {
+        return (a.to_vec(), b.to_vec());
+    }
+    let mut o0 = vec![0; w];
+    let mut o1 = vec![0; w];
+    for i in 0..w {
+        let (blk, off) = (i / bl, i % bl);
+        let pair = blk / 2;
+        let src = if blk % 2 == 0 { a } else { b };
+        o0[i] = src[(2 * pair) * bl + off];
+        o1[i] = src[(2 * pair + 1) * bl + off];
+    }
+    (o0, o1)
+}
+
+fn packed_ops(c: &PackedCase, st: &mut Stats) -> Result<(), String> {
+    let w = PF::WIDTH;
+    ck!(
+        <<F as Packable>::Packing as PackedField>::WIDTH == w,
+        "harness: Packable::Packing width {} != width {} of the type under test",
+        <<F as Packable>::Packing as PackedField>::WIDTH,
+        w
+    );
+    if c.lanes.len() != MAX_WIDTH || w > MAX_WIDTH {
+        return Ok(()); // malformed (hand-edited) case
+    }
+    st.label(&format!("packed:width={}{}", w, if w == 1 { " (scalar build: packing is the scalar type)" } else { "" }));
+    let ra: Vec<u64> = c.lanes[..w].iter().map(|t| t.a).collect();
+    let rb: Vec<u64> = c.lanes[..w].iter().map(|t| t.b).collect();
+    let rc: Vec<u64> = c.lanes[..w].iter().map(|t| t.c).collect();
+    let fa: Vec<F> = ra.iter().map(|&x| F(x)).collect();
+    let fb: Vec<F> = rb.iter().map(|&x| F(x)).collect();
+    let fc: Vec<F> = rc.iter().map(|&x| F(x)).collect();
+    let (pa, pb, pc): (PF, PF, PF) = (*PF::from_slice(&fa), *PF::from_slice(&fb), *PF::from_slice(&fc));
+    let s = F(c.s);
+    if ra.iter().chain(&rb).any(|&x| x >= P || is_boundary(x)) {
+        st.nontrivial(&(&ra, &rb, &rc, c.s));
+    }
+    for i in 0..w {
+        if add_double_overflow(ra[i], rb[i]) {
+            st.label("branch:packed_lane_add_double_overflow_operands");
+        }
+        if sub_double_underflow(ra[i], rb[i]) {
+            st.label("branch:packed_lane_sub_double_underflow_operands");
+        }
+        if rb[i] >= P {
+            st.label("branch:packed_lane_noncanonical_rhs");
+        }
+        let (bo, ov) = reduce128_preds(ra[i] as u128 * rb[i] as u128);
+        if bo {
+            st.label("branch:packed_lane_reduce128_borrow");
+        }
+        if ov {
+            st.label("branch:packed_lane_reduce128_final_add_overflow");
+        }
+    }
+    st.evals(w as u64);
+    st.sample(|| json!({"width": w, "a": ra, "b": rb}));
+    let lw = |f: &dyn Fn(usize) -> u64| -> Vec<u64> { (0..w).map(f).collect() };
+
+    lanes_eq("from_slice/as_slice", &pa, &lw(&|i| ra[i] % P))?;
+    lanes_eq("add", &(pa + pb), &lw(&|i| refmod::add(ra[i], rb[i])))?;
+    lanes_eq("sub", &(pa - pb), &lw(&|i| refmod::sub(ra[i], rb[i])))?;
+    lanes_eq("sub(b,a)", &(pb - pa), &lw(&|i| refmod::sub(rb[i], ra[i])))?;
+    lanes_eq("neg", &(-pa), &lw(&|i| refmod::neg(ra[i])))?;
+    lanes_eq("mul", &(pa * pb), &lw(&|i| refmod::mul(ra[i], rb[i])))?;
+    lanes_eq("square", &pa.square(), &lw(&|i| refmod::mul(ra[i], ra[i])))?;
+    lanes_eq("square(b)", &pb.square(), &lw(&|i| refmod::mul(rb[i], rb[i])))?;
+    lanes_eq("doubles", &pa.doubles(), &lw(&|i| refmod::add(ra[i], ra[i])))?;
+    lanes_eq("add scalar", &(pa + s), &lw(&|i| refmod::add(ra[i], c.s)))?;
+    lanes_eq("scalar add", &(s + pa), &lw(&|i| refmod::add(ra[i], c.s)))?;
+    lanes_eq("sub scalar", &(pa - s), &lw(&|i| refmod::sub(ra[i], c.s)))?;
+    lanes_eq("scalar sub", &(s - pa), &lw(&|i| refmod::sub(c.s, ra[i])))?;
+    lanes_eq("mul scalar", &(pa * s), &lw(&|i| refmod::mul(ra[i], c.s)))?;
+    lanes_eq("scalar mul", &(s * pa), &lw(&|i| refmod::mul(ra[i], c.s)))?;
+    if c.s % P != 0 {
+        let si = refmod::inv(c.s);
+        lanes_eq("div scalar", &(pa / s), &lw(&|i| refmod::mul(ra[i], si)))?;
+    }
+    lanes_eq("From<scalar>", &PF::from(s), &lw(&|_| c.s % P))?;
+    lanes_eq("ZEROS", &PF::ZEROS, &lw(&|_| 0))?;
+    lanes_eq("ONES", &PF::ONES, &lw(&|_| 1))?;
+    lanes_eq("default", &PF::default(), &lw(&|_| 0))?;
+    let mut x = pa;
+    x += pb;
+    lanes_eq("add_assign", &x, &lw(&|i| refmod::add(ra[i], rb[i])))?;
+    let mut x = pa;
+    x -= pb;
+    lanes_eq("sub_assign", &x, &lw(&|i| refmod::sub(ra[i], rb[i])))?;
+    let mut x = pa;
+    x *= pb;
+    lanes_eq("mul_assign", &x, &lw(&|i| refmod::mul(ra[i], rb[i])))?;
+    let mut x = pa;
+    x += s;
+    lanes_eq("add_assign scalar", &x, &lw(&|i| refmod::add(ra[i], c.s)))?;
+    let mut x = pa;
+    x -= s;
+    lanes_eq("sub_assign scalar", &x, &lw(&|i| refmod::sub(ra[i], c.s)))?;
+    let mut x = pa;
+    x *= s;
+    lanes_eq("mul_assign scalar", &x, &lw(&|i| refmod::mul(ra[i], c.s)))?;
+    lanes_eq(
+        "Sum",
+        &[pa, pb, pc].into_iter().sum::<PF>(),
+        &lw(&|i| refmod::add(refmod::add(ra[i], rb[i]), rc[i])),
+    )?;
+    lanes_eq(
+        "Product",
+        &[pa, pb, pc].into_iter().product::<PF>(),
+        &lw(&|i| refmod::mul(refmod::mul(ra[i], rb[i]), rc[i])),
+    )?;
+    lanes_eq("empty Sum", &core::iter::empty::<PF>().sum::<PF>(), &lw(&|_| 0))?;
+    lanes_eq("empty Product", &core::iter::empty::<PF>().product::<PF>(), &lw(&|_| 1))?;
+    // mixed expression (as used by gate evaluation): a*b + c - a
+    lanes_eq(
+        "a*b+c-a",
+        &(pa * pb + pc - pa),
+        &lw(&|i| refmod::sub(refmod::add(refmod::mul(ra[i], rb[i]), rc[i]), ra[i])),
+    )?;
+
+    // interleave for every power-of-two block length <= WIDTH
+    let (ca_, cb_): (Vec<u64>, Vec<u64>) = (lw(&|i| ra[i] % P), lw(&|i| rb[i] % P));
+    let mut bl = 1;
+    while bl <= w {
+        let (x, y) = pa.interleave(pb, bl);
+        let (wx, wy) = ref_interleave(&ca_, &cb_, bl);
+        lanes_eq(&format!("interleave({}).0", bl), &x, &wx)?;
+        lanes_eq(&format!("interleave({}).1", bl), &y, &wy)?;
+        st.label(&format!("packed:interleave block_len={}", bl));
+        bl *= 2;
+    }
+
+    // pack_slice / pack_slice_mut / from_slice_mut / as_slice_mut round trips
+    let mut buf: Vec<F> = fa.iter().chain(&fb).chain(&fc).copied().collect();
+    {
+        let packed = PF::pack_slice(&buf);
+        ck!(packed.len() == 3, "pack_slice length {}", packed.len());
+        lanes_eq("pack_slice[0]", &packed[0], &ca_)?;
+        lanes_eq("pack_slice[1]", &packed[1], &cb_)?;
+        lanes_eq("pack_slice[2]", &packed[2], &lw(&|i| rc[i] % P))?;
+    }
+    {
+        let packed = PF::pack_slice_mut(&mut buf);
+        packed[1] = packed[0] * packed[2];
+        packed[2].as_slice_mut()[w - 1] = s;
+    }
+    for i in 0..w {
+        ck!(buf[i].to_canonical_u64() == ra[i] % P, "pack_slice_mut changed an untouched lane {}", i);
+        ck!(
+            buf[w + i].to_canonical_u64() == refmod::mul(ra[i], rc[i]),
+            "pack_slice_mut write-through lane {}: got {}",
+            i,
+            buf[w + i].to_canonical_u64()
+        );
+        let want = if i == w - 1 { c.s % P } else { rc[i] % P };
+        ck!(buf[2 * w + i].to_canonical_u64() == want, "as_slice_mut write-through lane {}", i);
+    }
+    {
+        let m = PF::from_slice_mut(&mut buf[..w]);
+        *m = *m + pb;
+    }
+    for i in 0..w {
+        ck!(buf[i].to_canonical_u64() == refmod::add(ra[i], rb[i]), "from_slice_mut write-through lane {}", i);
+    }
+
+    // batch_util: packed body + scalar leftovers
+    let n = c.blk.len();
+    st.label(&format!("packed:batch_util leftovers={}", n % w));
+    let xs: Vec<F> = c.blk.iter().map(|p| F(p.0)).collect();
+    let ys: Vec<F> = c.blk.iter().map(|p| F(p.1)).collect();
+    let mut out = xs.clone();
+    batch_multiply_inplace(&mut out, &ys);
+    for i in 0..n {
+        ck!(
+            out[i].to_canonical_u64() == refmod::mul(c.blk[i].0, c.blk[i].1),
+            "batch_multiply_inplace[{}] of {}: got {}",
+            i,
+            n,
+            out[i].to_canonical_u64()
+        );
+    }
+    let mut out = xs.clone();
+    batch_add_inplace(&mut out, &ys);
+    for i in 0..n {
+        ck!(
+            out[i].to_canonical_u64() == refmod::add(c.blk[i].0, c.blk[i].1),
+            "batch_add_inplace[{}] of {}: got {}",
+            i,
+            n,
+            out[i].to_canonical_u64()
+        );
+    }
+    Ok(())
+}
+
+// ------------------------------------------------------------------------------------------
+// driver
+// ------------------------------------------------------------------------------------------
+
 pub fn run(ctx: &mut Ctx) {
-    ctx.rule = "operand triples from the boundary-biased representation generator (incl. non-canonical \
-                representations and correlated pairs around 2^64 and 0); non-trivial = some operand is \
-                non-canonical or in a boundary class; distinct = distinct operand triple"
+    ctx.rule = "operands from the boundary-biased representation generator (incl. non-canonical \
+                representations) plus correlated classes built to reach the rare branches (pairs summing to \
+                ~2^64+p, differences ~p, products divisible by 2^64, coefficient vectors with zero low limbs); \
+                non-trivial = some operand is non-canonical or in a boundary class; distinct = distinct operand \
+                tuple. histogram keys 'branch:*' count how often each rare branch was reached, computed from \
+                the operands by the harness"
         .into();
-    ctx.assumptions.push("oracle = u128 arithmetic modulo p".into());
-    let cases = ctx.tier.pick(200_000, 20_000_000);
-    ctx.run_sub("scalar_ops", cases, 16, triple, scalar_ops);
-    let _ = canonical;
+    ctx.assumptions.push("oracle = u128 arithmetic modulo p, BigUint modpow, schoolbook polynomial arithmetic modulo X^D - W".into());
+    ctx.assumptions.push(
+        "preconditions respected: from_canonical_* only on canonical values, canonical rhs for \
+         add/sub_canonical_u64, non-zero inputs to inverse/batch inverse, kth_root_u64 only for k coprime to \
+         the group order (cube_root is therefore not applicable to Goldilocks: 3 | p-1)"
+            .into(),
+    );
+    ctx.assumptions.push(
+        "reduce160 is pub(crate); it is reached through `*` on the quadratic/quartic/quintic Goldilocks \
+         extensions (specialised Mul impls); the generic default Mul impls are unreachable for Goldilocks"
+            .into(),
+    );
+    ctx.assumptions.push(
+        "EXT_MULTIPLICATIVE_GROUP_GENERATOR is judged by the relation documented on `Extendable` \
+         (g^((p^D-1)>>TWO_ADICITY) == EXT_POWER_OF_TWO_GENERATOR), g^(p^D-1) == 1 and g outside the 2-power \
+         subgroup; whether it generates the whole group is only recorded (histogram 'observation:*')"
+            .into(),
+    );
+    ctx.extra.insert("packing_width".into(), json!(PF::WIDTH));
+
+    ctx.run_sub("scalar_ops", ctx.tier.pick(400_000, 20_000_000), 16, triple, scalar_ops);
+    ctx.run_sub("batch_inverse", ctx.tier.pick(40_000, 1_500_000), 16, batch_case, batch_inverse);
+    ctx.run_sub("misc_scalar", ctx.tier.pick(60_000, 2_000_000), 16, misc_case, misc_scalar);
+    ctx.run_sub("field_consts", 1, 1, fixed_case, field_consts);
+    ctx.run_sub("ext_ops", ctx.tier.pick(30_000, 1_000_000), 16, ext_case, ext_ops);
+    ctx.run_sub("ext_consts", 1, 1, fixed_case, ext_consts);
+    ctx.run_sub("packed_ops", ctx.tier.pick(200_000, 10_000_000), 16, packed_case, packed_ops);
 }
